@@ -145,4 +145,55 @@ proof fn lemma_renamed(o: ModuleGraph, n: ModuleGraph, op: u64, np: u64)
         assert(o.index@.contains_key(o.graph@[i].id));
     }
 }
+spec fn edge_g(g: Seq<Node>, a: u64, b: u64) -> bool { exists|i: int| 0 <= i < g.len() && g[i].id == a && g[i].depends_on@.contains(b) }
+spec fn is_walk(g: Seq<Node>, p: Seq<u64>) -> bool { p.len() >= 2 && forall|i: int| 0 <= i < p.len() - 1 ==> edge_g(g, p[i], #[trigger] p[i + 1]) }
+/// `b` is reached from `a` along at least one dependency edge
+spec fn reach_g(g: Seq<Node>, a: u64, b: u64) -> bool { exists|p: Seq<u64>| is_walk(g, p) && p[0] == a && p.last() == b }
+/// the vector after `add_node_if_none(referrer)`
+spec fn is_mid(g0: Seq<Node>, mid: Seq<Node>, r: u64) -> bool {
+    if exists|i: int| 0 <= i < g0.len() && g0[i].id == r { mid == g0 }
+    else { mid.len() == g0.len() + 1 && mid.drop_last() == g0 && mid.last().id == r && mid.last().depends_on@ == Set::<u64>::empty() }
+}
+spec fn added_edge(mid: Seq<Node>, fin: Seq<Node>, a: u64, b: u64) -> bool {
+    fin.len() == mid.len() && forall|k: int| 0 <= k < fin.len() ==> (#[trigger] fin[k]).id == mid[k].id
+        && fin[k].depends_on@ == (if mid[k].id == a { mid[k].depends_on@.insert(b) } else { mid[k].depends_on@ })
+}
+
+impl ModuleGraph {
+    // @trusted: contract of the recursive query deep_depends_on (recursion inside `any(closure)` over a visited set; not verified): reachability along at least one dependency edge
+    #[verifier::external_body]
+    fn deep_depends_on(&self, path: &u64, target: &u64) -> (res: bool)
+        requires wf(*self)
+        ensures res == reach_g(self.graph@, *path, *target)
+    { false }
+}
+proof fn reveal_mid(o: ModuleGraph, m: ModuleGraph, r: u64)
+    requires wf(o), wf(m),
+        has_path(o, r) ==> m.graph@ == o.graph@,
+        !has_path(o, r) ==> m.graph@.len() == o.graph@.len() + 1 && m.graph@.last().id == r && m.graph@.last().depends_on@ == Set::<u64>::empty() && m.graph@.drop_last() == o.graph@,
+    ensures is_mid(o.graph@, m.graph@, r), has_path(m, r)
+{
+    if !has_path(o, r) { assert(m.graph@[m.graph@.len() - 1].id == r); }
+}
+proof fn lemma_edge_added(m: ModuleGraph, f: ModuleGraph, a: u64, b: u64)
+    requires wf(m), has_path(m, a), f.index@ == m.index@, f.graph@.len() == m.graph@.len(),
+        forall|k: int| 0 <= k < m.graph@.len() && k != m.index@[a] ==> f.graph@[k] == m.graph@[k],
+        f.graph@[m.index@[a] as int].id == a, f.graph@[m.index@[a] as int].depends_on@ == m.graph@[m.index@[a] as int].depends_on@.insert(b),
+    ensures wf(f), added_edge(m.graph@, f.graph@, a, b)
+{
+    let ia = m.index@[a] as int;
+    let i0 = choose|i: int| 0 <= i < m.graph@.len() && m.graph@[i].id == a;
+    assert(m.index@.contains_key(m.graph@[i0].id));
+    assert(m.graph@[ia].id == a);
+    assert forall|k: int| 0 <= k < f.graph@.len() implies (#[trigger] f.graph@[k]).id == m.graph@[k].id
+        && f.graph@[k].depends_on@ == (if m.graph@[k].id == a { m.graph@[k].depends_on@.insert(b) } else { m.graph@[k].depends_on@ }) by {
+        if k != ia { assert(m.index@.contains_key(m.graph@[k].id) && m.index@[m.graph@[k].id] == k); }
+    }
+    assert forall|p: u64| #[trigger] f.index@.contains_key(p) implies f.index@[p] < f.graph@.len() && f.graph@[f.index@[p] as int].id == p by {
+        assert(m.graph@[m.index@[p] as int].id == p);
+    }
+    assert forall|i: int| 0 <= i < f.graph@.len() implies f.index@.contains_key(#[trigger] f.graph@[i].id) && f.index@[f.graph@[i].id] == i by {
+        assert(m.index@.contains_key(m.graph@[i].id));
+    }
+}
 } // verus!
